@@ -14,6 +14,6 @@ hdr = ("| property | theorems audited | closed under the global context | axioms
 tier = json.load(open(sorted(glob.glob("/verif/evidence/C*.json"))[0]))["tier"]
 tab = hdr % tier + "\n".join(rows) + "\n"
 t = open("/verif/DESIGN.md").read()
-t = re.sub(r"<!-- TRUSTED-TABLE-BEGIN -->.*<!-- TRUSTED-TABLE-END -->", "<!-- TRUSTED-TABLE-BEGIN -->\n" + tab + "<!-- TRUSTED-TABLE-END -->", t, flags=re.S)
+t = re.sub(r"<!-- TRUSTED-TABLE-BEGIN -->.*<!-- TRUSTED-TABLE-END -->", lambda _m: "<!-- TRUSTED-TABLE-BEGIN -->\n" + tab + "<!-- TRUSTED-TABLE-END -->", t, flags=re.S)
 open("/verif/DESIGN.md", "w").write(t)
 print(tab)
